@@ -98,7 +98,8 @@ async def _run_op(op):
         elif kind == 'dev':
             await f_device.patch_device(h, copy.deepcopy(op[1]))
         elif kind == 'sadd':
-            await f_devices.post_slave_devices(h, copy.deepcopy(op[1]))
+            await f_devices.post_slave_devices(FakeHandler(method='POST'), copy.deepcopy(op[1]))
+            await _settle(2)
         elif kind == 'sput':
             await f_devices.put_slave_devices(FakeHandler(method='PUT'), copy.deepcopy(op[1]))
         elif kind == 'sfwd':
@@ -169,6 +170,13 @@ async def _amain(spec, out):
         ports_c07.WRITES.append([self.get_id(), value])
         return await orig_write(self, value)
     core_vports.VirtualPort.write_value = logged_write
+
+    if spec.get('remotes'):
+        from tornado.httpclient import AsyncHTTPClient
+        from harness import simslave_c07
+        simslave_c07.REMOTES.update(spec['remotes'])
+        simslave_c07.STATE['up'] = bool(spec.get('remotes_up', True))
+        AsyncHTTPClient.configure('harness.simslave_c07.FakeClient')
 
     for f in ('init_loop', 'init_system', 'init_persist', 'init_peripherals', 'init_events', 'init_sessions',
               'init_history', 'init_device', 'init_webhooks', 'init_reverse', 'init_ports', 'init_slaves', 'init_main'):
